@@ -37,12 +37,14 @@ static long long tmo_us[] = {0, 1500, 3000, 3600000000LL};	/* the last one: 1 ho
 #define NTMO 4
 /*
  * --alt: timers are registered through events_timer_register_double() with values that are exact in binary
- * (0, 2^-9 s, 2147483.875 s, 30 days; the library truncates to whole microseconds); the last two lie at and beyond
+ * (0, 1 - 2^-22 s, 2147483.875 s, 30 days; the library truncates to whole microseconds); the last two lie at and beyond
  * INT_MAX milliseconds, so that the poll timeout has to be clamped and the wait resumed afterwards.
  */
 static int alt_mode;
-static const double tmo_alt_s[] = {0.0, 0.001953125, 2147483.875, 2592000.0};	/* INT_MAX / 1000 = 2147483: the third value lies inside the boundary second */
-static const long long tmo_alt_us[] = {0, 1953, 2147483875000LL, 2592000000000LL};
+/* 1 - 2^-22 s = 0.99999976... s is exact in binary and truncates to 999999 us (a conversion that rounds instead must carry into the seconds);
+ * INT_MAX / 1000 = 2147483: the third value lies inside the boundary second */
+static const double tmo_alt_s[] = {0.0, 0.999999761581420898437500, 2147483.875, 2592000.0};
+static const long long tmo_alt_us[] = {0, 999999, 2147483875000LL, 2592000000000LL};
 /* just before a second boundary, so that deadlines, sleeps and poll time-outs cross it */
 #define CLOCK_START 1998000LL
 
@@ -461,7 +463,7 @@ main(int argc, char ** argv)
 	snprintf(args, sizeof(args), "[\"--ops\",\"%d\",\"--cb\",\"%d\",\"--nfd\",\"%d\"]", op_bound, cb_action_bound, NFD);
 	cfg.args_json = args;
 	vf_info("bounds", "main-context ops <= %d, callback actions <= %d, deviations <= %d, descriptors %d, timers <= %d, immediates <= %d; timeouts %s", op_bound, cb_action_bound, dev, NFD, NTIMER, NIMM,
-	    alt_mode ? "{0, 2^-9 s, 2147483.875 s, 30 days} through events_timer_register_double" : "{0, 1.5 ms, 3 ms, 1 h}");
+	    alt_mode ? "{0, 1 - 2^-22 s, 2147483.875 s, 30 days} through events_timer_register_double" : "{0, 1.5 ms, 3 ms, 1 h}");
 	teardown();	/* same starting point as every later execution */
 	if (vf_replay) {
 		int bound = dev; const char * ch;
